@@ -91,7 +91,15 @@ def turns_configs(quick):
          "pub": '[op |-> "Publish", topic |-> %s, n |-> 1]' % T1R,
          "pub2": '[op |-> "Publish", topic |-> %s, n |-> 1]' % T1R,
          "pl": '[op |-> "Pull", sub |-> %s, max |-> 2]' % S1R}
-    cfgs = [("a", a), ("b", b), ("c", c)]
+    # data path under concurrency: pulls, an ack, a nack and one expiry turn racing with the publish
+    e = {"ct": '[op |-> "CreateTopic", name |-> %s]' % T1R,
+         "cs": '[op |-> "CreateSub", name |-> %s, topic |-> %s]' % (S1R, T1R),
+         "pub": '[op |-> "Publish", topic |-> %s, n |-> 2]' % T1R,
+         "pl": '[op |-> "Pull", sub |-> %s, max |-> 1]' % S1R,
+         "pl2": '[op |-> "Pull", sub |-> %s, max |-> 2]' % S1R,
+         "nk": '[op |-> "Nack", sub |-> %s, acks |-> {1}]' % S1R,
+         "ak": '[op |-> "Ack", sub |-> %s, acks |-> {1, 2}]' % S1R}
+    cfgs = [("a", a), ("b", b), ("c", c), ("e", e)]
     if not quick:
         d = dict(b)
         d["cs3"] = '[op |-> "CreateSub", name |-> %s, topic |-> %s]' % (S2R, T1R)
@@ -106,7 +114,7 @@ def turns_check(prop, work, quick, violations):
     the check, and the pinned design (attach of a subscription that is being deleted) must be rejected."""
     total = {"generated": 0, "distinct": 0}
     for name, ops in turns_configs(quick):
-        r = V.turns_mc(os.path.join(work, "mct"), name, ops)
+        r = V.turns_mc(os.path.join(work, "mct"), name, ops, max_expiries=1)
         if r["stats"]:
             total["generated"] += r["stats"]["generated"]
             total["distinct"] += r["stats"]["distinct"]
@@ -832,6 +840,27 @@ def c07_scenarios(n_seeds, seed):
     return out
 
 
+
+def liveness_mc(prop, work, name, procs, props, pinned, violations, total, runs, cap=1, backlog=0, cancel=(), workers=8):
+    """DeltioActors under LiveSpec (per-component weak fairness): the temporal properties must hold
+    for the repaired design and each `pinned` switch setting must violate them (vacuity control)."""
+    r = V.actors_mc(os.path.join(work, "mc"), name, procs, cap=cap, backlog=backlog, allow_cancel=cancel,
+                    invariants=["TypeOK"], properties=props, spec="LiveSpec", workers=workers)
+    if r["stats"]:
+        total["generated"] += r["stats"]["generated"]
+        total["distinct"] += r["stats"]["distinct"]
+    runs.append({"config": name, "liveness": props, "stats": r["stats"], "error": r["error"]})
+    if r["error"]:
+        path = V.save_replay(prop, 0, {"kind": "model", "error": r["error"], "config": r["config"], "trace": r["trace"],
+                                       "tlc_output_tail": r["out"][-5000:]})
+        violations.append(("model DeltioActors (liveness): " + r["error"], path))
+    for sw in pinned:
+        m = V.actors_mc(os.path.join(work, "mc"), name + "_pinned", procs, cap=cap, backlog=backlog, allow_cancel=cancel,
+                        switches=sw, properties=props, spec="LiveSpec", workers=workers)
+        if not m["error"]:
+            raise V.ToolError("vacuity: the model with %s satisfies %s under LiveSpec" % (sw, props))
+
+
 def c07_mc(work, quick, violations):
     """All interleavings of a delete, a publish and CAP+1 further requests: the repaired design
     must be free of hangs; the pinned design (delete does not drain) must show the deadlock."""
@@ -877,6 +906,12 @@ def c07_mc(work, quick, violations):
                           switches={"ExitDrainsGranted": False}, invariants=["C07_NoHang"])
     if not pinned2["error"]:
         raise V.ToolError("vacuity: the model with ExitDrainsGranted=FALSE does not show the lost request")
+    # liveness: every request that was sent is eventually answered (no livelock either)
+    lprocs = {"d": ("delete", "s1"), "pub": ("publish", "s1"), "q1": ("pull", "s1"), "q2": ("ack", "s1"), "q3": ("nack", "s1")}
+    if not quick:
+        lprocs["d2"] = ("delete", "s1")
+    liveness_mc("C07", work, "c07_live", lprocs, ["C07_Answered"], [{"DeleteDrainsMailbox": False}, {"ExitDrainsGranted": False}],
+                violations, total, runs, cap=1, backlog=1)
     return {"stats": total, "runs": runs, "pinned_counterexample_steps": len(pinned["trace"]),
             "pinned_exit_counterexample_steps": len(pinned2["trace"])}
 
@@ -1017,6 +1052,12 @@ def c06_mc(work, quick, violations):
                     allow_cancel=["b1", "b2"], max_expire=0, invariants=["C06_NoLostWake"])
     if not m["error"]:
         raise V.ToolError("vacuity: the model without the wake-up hand-on satisfies C06_NoLostWake under cancellation")
+    # liveness: a consumer is not left parked for ever next to a non-empty backlog
+    lprocs = {"b1": ("bpull", "s1"), "b2": ("bpull", "s1"), "pub": ("publish", "s1"), "n": ("nack", "s1")}
+    if not quick:
+        lprocs["st"] = ("stream", "s1")
+    liveness_mc("C06", work, "c06_live", lprocs, ["C06_Woken"], [{"PullHandsOnWakeup": False}, {"PostDoesNotNotify": True}],
+                violations, total, runs, cap=1, backlog=0, cancel=["b1"])
     return {"stats": total, "runs": runs}
 
 
@@ -1095,6 +1136,12 @@ def c12_mc(work, quick, violations):
         m = V.actors_mc(os.path.join(work, "mc"), "c12_pinned", configs[0][1], cap=2, backlog=1, switches={sw: False}, invariants=invs)
         if not m["error"]:
             raise V.ToolError("vacuity: the model with %s=FALSE satisfies the C12 invariants" % sw)
+    # liveness: consumers of a deleted subscription are eventually released
+    lprocs = {"st": ("stream", "s1"), "bp": ("bpull", "s1"), "d": ("delete", "s1")}
+    if not quick:
+        lprocs["pub"] = ("publish", "s1")
+    liveness_mc("C12", work, "c12_live", lprocs, ["C12_EventuallyReleased", "C07_Answered"],
+                [{"PullWatchesDeleted": False}, {"ClosedMeansNotFound": False}], violations, total, runs, cap=1, backlog=1)
     return {"stats": total, "runs": runs}
 
 
